@@ -67,30 +67,32 @@ type NameObs struct {
 }
 
 type Obs16 struct {
-	ID       int        `json:"id"`
-	Rep      int        `json:"rep"`
-	Fam      string     `json:"fam"`
-	Op       string     `json:"op"`
-	Layout   string     `json:"layout"`
-	Lock     string     `json:"lock"`
-	API      string     `json:"api"`
-	Err      bool       `json:"err"`
-	Panic    bool       `json:"panic"`
-	Msg      string     `json:"msg"`
-	Dest     []string   `json:"dest"`
-	Allowed  [][]string `json:"allowed"` // roots under which changes are legitimate (dest; for Update also helm's own cache)
-	Changes  []Change   `json:"changes"`
-	Names    []NameObs  `json:"names"`
-	Sizes    []int64    `json:"sizes"`
-	FLim     int64      `json:"flim"`
-	TLim     int64      `json:"tlim"`
-	Consumed int64      `json:"consumed"`
-	Bound    int64      `json:"bound"`
-	SpecErr  bool       `json:"specErr"`
-	SpecOut  []PathT    `json:"specOut"`  // the model's touched files (and directories made by dir entries)
-	SpecName [][]string `json:"specName"` // the model's exposed names
-	SpecKF   []string   `json:"specKF"`
-	Conc     string     `json:"conc"` // the concrete header names, for the reader of a replay
+	ID        int        `json:"id"`
+	Rep       int        `json:"rep"`
+	Fam       string     `json:"fam"`
+	Op        string     `json:"op"`
+	Layout    string     `json:"layout"`
+	Lock      string     `json:"lock"`
+	API       string     `json:"api"`
+	Err       bool       `json:"err"`
+	Panic     bool       `json:"panic"`
+	Msg       string     `json:"msg"`
+	Dest      []string   `json:"dest"`
+	Allowed   [][]string `json:"allowed"` // roots under which changes are legitimate (dest; for Update also helm's own cache)
+	Changes   []Change   `json:"changes"`
+	Names     []NameObs  `json:"names"`
+	Sizes     []int64    `json:"sizes"`
+	FLim      int64      `json:"flim"`
+	TLim      int64      `json:"tlim"`
+	Consumed  int64      `json:"consumed"`
+	Bound     int64      `json:"bound"`
+	FirstOver int        `json:"firstOver"` // 1-based index of the first entry that crosses a limit (0: none)
+	HdrBound  int64      `json:"hdrBound"`  // stream offset of that entry's DATA + one flate window: what may be read when it is rejected from its header
+	SpecErr   bool       `json:"specErr"`
+	SpecOut   []PathT    `json:"specOut"`  // the model's touched files (and directories made by dir entries)
+	SpecName  [][]string `json:"specName"` // the model's exposed names
+	SpecKF    []string   `json:"specKF"`
+	Conc      string     `json:"conc"` // the concrete header names, for the reader of a replay
 }
 
 // ---- concretisation ---------------------------------------------------------------------------
@@ -437,6 +439,10 @@ func RunCase16(c Case16, seed int64, rep int, base string) Obs16 {
 		runLock(c, cc, sb, &o)
 		return o
 	}
+	if c.Op == "download" {
+		runDownload(c, cc, sb, r, &o)
+		return o
+	}
 	baseDir := []string{"dest"}
 	if c.Op == "expand" {
 		baseDir = []string{"dest", cc.fwd["chart"]}
@@ -510,6 +516,9 @@ func RunCase16(c Case16, seed int64, rep int, base string) Obs16 {
 			d := int64(offs[first]) + lim
 			// stored gzip blocks: 10 header bytes + 5 per block; one flate window + one io.Copy buffer of slack
 			o.Bound = 10 + d + 5*(d/32768+4) + 2*32768 + 1024
+			o.FirstOver = first + 1
+			h := int64(offs[first])
+			o.HdrBound = 10 + h + 5*(h/32768+4) + 32768 + 1024
 		}
 	}
 	o.Err = err != nil || o.Panic
